@@ -44,6 +44,14 @@ CHECKS.update({
  'C15': dict(cat='proof', text="PARTIAL (theorem is about a state-dict inventory model). Lean: reload_sound / reload_same_function / reload_after_history (an inventory whose function-determining entries are persisted, constructor-determined or aliases reloads to the same evaluation, for every history of value updates), exactness. Translator: on every run the inventory of every configuration with constructor-time randomness is extracted from the running modules and written to Generated/C15.lean (one `reloadSafe … = true := by decide` obligation each); behavioural differential: save under seed A, load into an instance built under seed B, forward/inverse/log_prob compared bitwise.",
              tech="Lean 4 proof on an inventory model + run-time translator + bitwise reload differential", ref="DESIGN.md §5 C15, §8.3"),
 })
+CHECKS.update({
+ 'C05': dict(cat='proof', text="Lean theorems on the executed density definitions at the real instance, for every event dimension D: standard/diagonal/conditional-diagonal normal integrate to 1 and have the stated means; sampling map mu+sigma*eps has law withDensity exp(log_prob); Bernoulli sums to 1 over {0,1}^D with mean sigmoid(logits) (for the executed softplus with threshold 20 under |logit| <= 20, counterexample beyond); MoG conditionals and the autoregressive joint integrate to 1 for every D (conditionals measurable functions of the prefix, cited from C06); KDE normalised for every N, D; BoxUniform / MG1 volume; truncated-Gaussian (Lotka) normaliser. Tied by log_prob/mean/seeded-sample correspondence on every Distribution class. erf of the executable model is a series validated numerically only; RNGs trusted. Known finding F15.",
+             tech="Lean 4 proof (measure theory) + model/implementation correspondence", ref="DESIGN.md §5 C05"),
+ 'C14': dict(cat='proof', text="Lean theorems for EVERY history over {train, eval, forward(batch), inverse(batch), save+load into a fresh instance}: the executable ActNorm / BatchNorm code machines (generic in the scalar semantics, i.e. the binary64 machine the driver runs) refine spec machines written from the documented behaviour; initialisation at most once, exactly at the first training-mode forward, never in eval / by inverse / after reload; the initialising batch comes out with mean 0 and unbiased variance 1 (reals, 2-D and 4-D); running statistics are the momentum fold over exactly the training-mode forward batches (closed form over the reals); eval uses running stats; inverse refused in training. Tied by lock-step histories (exhaustive to length 5, random to 40) with bit-exact running statistics on dyadic data.",
+             tech="Lean 4 refinement proof over histories + lock-step correspondence", ref="DESIGN.md §5 C14"),
+ 'C16': dict(cat='proof', text="PARTIAL. Proved: forward-mode AD over the expression language is sound away from kinks (evalDual_sound), and the executed RQ forward term is smooth on its bin for every parameter value, so it is differentiable in the input and in every parameter with the derivative the dual evaluation returns. Tie: torch.autograd gradients of the real code w.r.t. inputs and w.r.t. conditioner outputs / own parameters (made leaves) are compared along random directions with the dual-number evaluation (dualX floatX) of the SAME Lean model definitions, for every modelled transform in both directions; every parameter receives a finite gradient, backward twice. Autograd itself (chain rule through conditioners) is trusted.",
+             tech="Lean 4 proof (AD soundness) + autograd-vs-dual-number correspondence", ref="DESIGN.md §5 C16, §8.2"),
+})
 NOT_YET = {}
 
 def main():
